@@ -162,7 +162,8 @@ Proof. exact suspend_resume_never_block. Qed.
 Print Assumptions C06_slane_suspend_resume_never_block.
 Theorem C06_slane_async_never_blocks : forall rb ina s t,
   0 <= rb < 2 -> reach rb ina s ->
-  (match pcs s t with PA_xchg _ | PA_link _ _ _ | PA_probe _ | PA_wake _ _ | PA_rootpush => true | _ => false end) = true ->
+  (match pcs s t with PA_xchg _ _ | PA_link _ _ _ _ | PA_probe _ | PA_wake _ _ | PA_rootpush | PA_oprobe _ | PA_owake _ => true
+   | _ => false end) = true ->
   enabled rb s t.
 Proof. exact async_never_blocks. Qed.
 Print Assumptions C06_slane_async_never_blocks.
